@@ -312,7 +312,8 @@ func (g *g) compound(kind string) string {
 }
 
 func (g *g) funcDef() (string, bool) {
-	name := g.pick("fname", "f", "foo", "_f1", "é", "fn2")
+	// (names that only begin with, end in or contain the name of a special built-in utility are ordinary names)
+	name := g.pick("fname", "f", "foo", "_f1", "é", "fn2", "setup", "exit_handler", "shift2", "timestamp", "evaluate", "breakpoint", "returns", "unset_all", "execute", "trap1", "reset", "do_exit", "export_", "readonly1", "continued", "dot", "colon", "sets", "xbreak", "e", "se", "times2")
 	t := g.s.add(text(KWord, name))
 	t.CmdPos = true
 	t.Depth = len(g.stack)
@@ -862,6 +863,20 @@ func (g *g) dquote() (string, string) {
 				ps = append(ps, skel.Param(true, "y", "", skel.Nil))
 				break
 			}
+			if g.chance("dq_subst_quotes", 3) {
+				// the command inside is not double-quoted text: quotes in it quote
+				open, cl := "$(", ")"
+				if !g.bq && g.chance("dq_subst_bq", 3) {
+					open, cl = "`", "`"
+				}
+				b.WriteString(open + `c ${b:-'e f'} \a` + cl)
+				ps = append(ps, skel.CmdSubst(open == "$(", []string{skel.Cmd(skel.Simple(nil, []string{
+					skel.Word([]string{skel.Lit("c")}),
+					skel.Word([]string{skel.Param(true, "b", ":-", skel.Word([]string{skel.Quote("'", []string{skel.Lit("e f")})}))}),
+					skel.Word([]string{skel.Quote(`\`, []string{skel.Lit("a")})})}), nil)}))
+				g.f("quotes_inside_a_substitution_inside_double_quotes")
+				break
+			}
 			b.WriteString("$(c d)")
 			ps = append(ps, skel.CmdSubst(true, []string{skel.Cmd(skel.Simple(nil, []string{skel.Word([]string{skel.Lit("c")}), skel.Word([]string{skel.Lit("d")})}), nil)}))
 		case 7:
@@ -1353,6 +1368,16 @@ func (g *g) heredoc(n string) string {
 				break
 			}
 			flush()
+			if g.chance("hd_subst_quotes", 3) {
+				ps = append(ps, skel.CmdSubst(true, []string{skel.Cmd(skel.Simple(nil, []string{
+					skel.Word([]string{skel.Lit("c")}),
+					skel.Word([]string{skel.Param(true, "b", ":-", skel.Word([]string{skel.Quote("'", []string{skel.Lit("e f")})}))}),
+					skel.Word([]string{skel.Quote(`\`, []string{skel.Lit("a")})})}), nil)}))
+				lit += " tail\n"
+				line = `$(c ${b:-'e f'} \a) tail`
+				g.f("quotes_inside_a_substitution_inside_double_quotes")
+				break
+			}
 			ps = append(ps, skel.CmdSubst(true, []string{skel.Cmd(skel.Simple(nil, []string{skel.Word([]string{skel.Lit("c")}), skel.Word([]string{skel.Lit("d")})}), nil)}))
 			lit += " tail\n"
 			line = "$(c d) tail"
